@@ -5,8 +5,8 @@ package world
 
 import (
 	"bytes"
-	"crypto/sha256"
 	"context"
+	"crypto/sha256"
 	"errors"
 	"fmt"
 	"io"
@@ -24,10 +24,10 @@ import (
 	"github.com/hashicorp/consul/agent/consul/fsm"
 	"github.com/hashicorp/consul/agent/consul/state"
 	"github.com/hashicorp/consul/agent/consul/stream"
-	"github.com/hashicorp/consul/agent/structs"
-	"github.com/hashicorp/consul/internal/verifmc/dump"
-	raftstorage "github.com/hashicorp/consul/internal/storage/raft"
 	"github.com/hashicorp/consul/agent/netutil"
+	"github.com/hashicorp/consul/agent/structs"
+	raftstorage "github.com/hashicorp/consul/internal/storage/raft"
+	"github.com/hashicorp/consul/internal/verifmc/dump"
 )
 
 var initOnce sync.Once
@@ -79,24 +79,24 @@ func (r *RecPublisher) Events(from int) []stream.Event {
 
 type handle struct{}
 
-func (handle) Apply(msg []byte) (any, error)                   { return nil, errors.New("verif: no raft") }
-func (handle) IsLeader() bool                                  { return true }
-func (handle) EnsureStrongConsistency(context.Context) error   { return nil }
-func (handle) DialLeader() (*grpc.ClientConn, error)           { return nil, errors.New("verif: no leader") }
+func (handle) Apply(msg []byte) (any, error)                 { return nil, errors.New("verif: no raft") }
+func (handle) IsLeader() bool                                { return true }
+func (handle) EnsureStrongConsistency(context.Context) error { return nil }
+func (handle) DialLeader() (*grpc.ClientConn, error)         { return nil, errors.New("verif: no leader") }
 
 type World struct {
-	FSM     *fsm.FSM
+	FSM *fsm.FSM
 	// st is the store this world's commands apply to. Clones share the parent's FSM (a pure
 	// dispatcher) and swap st in before every call.
 	st *state.Store
 	// ResourceOps: the alphabet contains resource operations, so clones need their own backend.
 	ResourceOps bool
 	Rec         *RecPublisher
-	GC      *state.TombstoneGC
-	Backend *raftstorage.Backend
-	Next    uint64
-	Hist    []string
-	Results []string
+	GC          *state.TombstoneGC
+	Backend     *raftstorage.Backend
+	Next        uint64
+	Hist        []string
+	Results     []string
 	// Aux carries a reference model that ops with a Model func step in lock-step with the FSM.
 	Aux any
 	// LastRaw is the un-normalized result of the last Apply.
@@ -434,6 +434,24 @@ func (w *World) Persist() ([]byte, error) {
 		return nil, err
 	}
 	return sk.Bytes(), nil
+}
+
+// Snapshot takes the FSM snapshot now and returns a function that persists it later (raft takes the
+// snapshot on the apply path and persists it in the background, while further commands are applied).
+func (w *World) Snapshot() (func() ([]byte, error), error) {
+	w.bind()
+	snap, err := w.FSM.Snapshot()
+	if err != nil {
+		return nil, err
+	}
+	return func() ([]byte, error) {
+		defer snap.Release()
+		sk := &sink{}
+		if err := snap.Persist(sk); err != nil {
+			return nil, err
+		}
+		return sk.Bytes(), nil
+	}, nil
 }
 
 // RestoreInto restores the snapshot bytes into this world's FSM (replacing its store).
